@@ -215,12 +215,17 @@ func (u *Unit) derive(l *Link, name string) string {
 			}
 		}
 	case "freshonly":
+		// The callee writes only memory it allocates itself. Cells above the allocation
+		// mark are never constrained before they are allocated, so "allocate and
+		// initialise" is modelled as revealing their (so far arbitrary) contents: every
+		// array keeps its identity and only $top advances. With an explicit frame
+		// boundary below the current mark (\after(x)) the arrays really change there.
 		p := u.hget(l.parent, name)
 		if name == "$top" {
 			t = u.fresh(name+"@f", sort)
 			u.emit("(assert (>= " + t + " " + p + "))")
-		} else if strings.HasPrefix(name, "$") {
-			t = p // scalars (globals, ghosts) are pre-existing memory
+		} else if strings.HasPrefix(name, "$") || l.top == "" {
+			t = p
 		} else if strings.HasPrefix(sort, "(Array Int") {
 			t = u.fresh(name+"@f", sort)
 			u.emit(fmt.Sprintf("(assert (forall ((r Int)) (! (=> (<= r %s) (= (select %s r) (select %s r))) :pattern ((select %s r)))))", l.top, t, p, t))
